@@ -180,7 +180,7 @@ WrapSlot(t, i) ==
      \/ (t.k = "KeyValueExpr" /\ i = 2)
      \/ (t.k \in {"CompositeLit"} /\ i >= 2)
      \/ (t.k = "SliceLit")
-     \/ (t.k = "List" /\ t.a = ",")
+     \/ (t.k = "List" /\ t.a = "," /\ t.c[i].k # "Ident")      \* (identifier lists are also field / parameter names)
      \/ (t.k \in {"IfStmt", "SwitchStmt"} /\ i = 2)
      \/ (t.k = "SendStmt" /\ i >= 2)
      \/ (t.k = "RangeExpr")
